@@ -16,14 +16,15 @@ def plan(ctx):
                 sets = [s for s in sets if len(s) <= 1] + rnd.sample([s for s in sets if len(s) > 1], 90)
         else:
             # every set of one or two erasures; the larger ones (each costs a decode plus one reconstruct per erased index) sampled
-            sets = list(esets(n, 1, min(m, 2)))
+            pairs = list(esets(n, 2, 2)) if m >= 2 else []
+            sets = list(esets(n, 1, 1)) + (rnd.sample(pairs, min(len(pairs), 5)))    # every single erasure + 5 sampled pairs
             if m > 2:
                 sets += rnd.sample(list(esets(n, m, m)), min(2, len(list(esets(n, m, m)))))
         for i, ch in enumerate(chunks(sets, 1)):
             obs.append(be_l1_ob(be, k, m, m, ch, w=1, tag="isal", idx=i, timeout=1200))
     # m >= 3: a lost data fragment together with two or more lost parities (the synthesised parity rows of get_inverse_rows depend on each other's bookkeeping)
     for be, k, m in [(ISAC, 3, 3), (ISAV, 4, 3)] + ([(ISAC, 5, 3), (ISAV, 4, 4)] if thorough else []):
-        sets = [(0, k, k + 1), (k - 1, k + 1, k + 2), (0, 1, k + 2), (1, k, k + 2)]
+        sets = [(0, k, k + 1), (k - 1, k + 1, k + 2), (0, 1, k + 2), (1, k, k + 2)] if thorough else [(0, k, k + 1), (k - 1, k + 1, k + 2)]
         for i, ch in enumerate(chunks(sets, 1)):
             obs.append(be_l1_ob(be, k, m, m, ch, tag="isalm3", idx=i, timeout=1500))
     # larger / corner shapes, sampled sets (gf_gen_rs_matrix is not MDS for every shape: singular survivor sets must give an error)
@@ -37,7 +38,7 @@ def plan(ctx):
     for be, k, m in [(ISAV, 2, 1), (ISAC, 3, 2), (ISAV, 4, 2)]:
         obs.append(be_l1_ob(be, k, m, m, [(0,), (k,), (0, k)[:m]], singular=True, tag="singular", idx=0))
     # public API on the smallest shapes (decode + reconstruct, every erasure set)
-    for be, k, m in [(ISAV, 2, 1), (ISAC, 2, 1)] + ([(ISAV, 2, 2), (ISAC, 2, 2), (ISAV, 3, 1)] if thorough else []):
+    for be, k, m in [(ISAV, 2, 1)] + ([(ISAC, 2, 1), (ISAV, 2, 2), (ISAV, 3, 1)] if thorough else []):
         n = k + m
         for e in esets(n, 1, m):
             surv = [i for i in range(n) if i not in e]
